@@ -87,8 +87,8 @@ def node_spec(draw, futures=0.3):
 
 
 @st.composite
-def op_spec(draw):
-    kind = draw(st.sampled_from(_KINDS))
+def op_spec(draw, kinds=None):
+    kind = draw(st.sampled_from(kinds or _KINDS))
     if kind == 'subscribe':
         return {
             'op': kind,
@@ -131,6 +131,20 @@ def history_spec(clean: bool):
             'nodes': st.lists(node_spec(), min_size=2, max_size=6),
             'ops': st.lists(op_spec(), min_size=3, max_size=25),
             'clean': st.just(clean),
+        }
+    )
+
+
+def group_history_spec():
+    """Histories about worker groups: a two-output publisher, a stateful worker and a few forks of it being trained (and
+    refused) in any order - rare in the wide campaign, where forks of one group seldom meet two training calls."""
+    fixed = [{'k': 'w', 'st': False, 'i': 0, 'o': 2}, {'k': 'w', 'st': True, 'i': 1, 'o': 1}]
+    kinds = ['fork', 'fork', 'train', 'train', 'train', 'subscribe', 'retry']
+    return st.fixed_dictionaries(
+        {
+            'nodes': st.lists(node_spec(futures=0.2), min_size=0, max_size=2).map(lambda extra: fixed + extra),
+            'ops': st.lists(op_spec(kinds), min_size=3, max_size=10),
+            'clean': st.just(False),
         }
     )
 
@@ -201,6 +215,19 @@ def _avoided(exp: interp.Expect) -> bool:
         if 'via-future' in exp.tags and reason in ('second-publisher', 'self-feed', 'trained-publishing'):
             return True
     return False
+
+
+def _follow_label_link(model: Model, real: interp.Real, rop, exp):
+    """Model of the state left by a ``Worker.train`` refused for its label publisher only (recorded finding
+    C11-train-label-refusal-keeps-train-port): the Train port stays subscribed. None unless the real graph is exactly that."""
+    if rop['op'] != 'train' or 'label-link' not in exp.tags or 'via-future' in exp.tags:
+        return None
+    follow = model.clone()
+    link = [((rop['w'], interp.T), tuple(rop['pubT']))]
+    if follow.judge(link, train_w=rop['w'])[0] != 'legal':
+        return None
+    follow.apply(link)
+    return follow if not _compare(follow, real) else None
 
 
 def _compare(model: Model, real: interp.Real):
@@ -357,7 +384,14 @@ def run_history(ctx, spec, nodes, ops, clean: bool, stats: dict):
                 after = real.snapshot()
                 if after != before:
                     ctx.fail(spec, 'atomic', exp.reason, f'{rop} raised {exc!r} but changed: {_diff(before, after)}', tags)
-                    return None
+                    followed = _follow_label_link(model, real, rop, exp)
+                    if followed is None:
+                        return None
+                    # the recorded finding (refused Worker.train keeps its Train port) has a definite outcome: the
+                    # model adopts it, so that what the *next* calls do to a half-trained group is still judged
+                    model = followed
+                    stats['followed-label-link'] = stats.get('followed-label-link', 0) + 1
+                    continue
                 stats['illegal'] += 1
                 if exp.reason == 'cycle':
                     stats['cycle'] += 1
@@ -470,6 +504,8 @@ def _classes(prefix, stats, final):
         classes.append('op:composition-ok')
     if stats['avoided']:
         classes.append('has:avoided-shape')
+    if stats.get('followed-label-link'):
+        classes.append('has:followed-half-trained')
     if 'stopped' in stats:
         classes.append(f'stopped:{stats["stopped"]}')
     for k in sorted(stats['kinds']):
@@ -549,6 +585,7 @@ def campaigns(ctx):
         Campaign('history', history_spec(False), check_history, 2200, 10000),
         Campaign('clean', history_spec(True), check_history, 2200, 10000),
         Campaign('perm', perm_spec(thorough), check_perm, 500, 300),
+        Campaign('groups', group_history_spec(), check_history, 600, 4000),
     ]
 
 
